@@ -3,11 +3,14 @@
 EXTENDS DnsCache
 CONSTANT Scenario
 \* which version each publisher publishes
-MC_VerOf == CASE Scenario \in {"p1", "p1eq"} -> [p \in Publishers |-> 2]
+\* keys: every lookup is for key "a"; in scenario "ab" the second publisher publishes for key "b"
+MC_RKey == [r \in Resolvers |-> "a"]
+MC_PKey == [p \in Publishers |-> IF Scenario = "ab" /\ p = "p2" THEN "b" ELSE "a"]
+MC_VerOf == CASE Scenario \in {"p1", "p1eq", "ab"} -> [p \in Publishers |-> 2]
               [] Scenario \in {"p2", "p2eq", "p2old"} -> [p \in Publishers |-> IF p = "p1" THEN 2 ELSE 3]
 \* timestamps of the versions: "eq" scenarios publish a packet with the timestamp of its
 \* predecessor and greater payload bytes
-MC_TsOf == CASE Scenario = "p1" -> <<1, 2>>
+MC_TsOf == CASE Scenario \in {"p1", "ab"} -> <<1, 2>>
              [] Scenario = "p1eq" -> <<1, 1>>
              [] Scenario = "p2" -> <<1, 2, 3>>
              [] Scenario = "p2eq" -> <<1, 2, 2>>
